@@ -7,6 +7,7 @@ import (
 	"errors"
 	"fmt"
 	"io"
+	"io/fs"
 	"log/slog"
 	"os"
 	"os/exec"
@@ -18,6 +19,7 @@ import (
 	"time"
 
 	"github.com/bufbuild/buf/private/bufpkg/bufmodule"
+	"github.com/bufbuild/buf/private/bufpkg/bufmodule/bufmodulecache"
 	"github.com/bufbuild/buf/private/bufpkg/bufmodule/bufmodulestore"
 	"github.com/bufbuild/buf/private/bufpkg/bufparse"
 	"github.com/bufbuild/buf/private/pkg/filelock"
@@ -211,7 +213,13 @@ func c09ReadWith(c *core.C, store bufmodulestore.ModuleDataStore, s c09Spec, key
 		c.Violation("get-result-shape", key, fmt.Sprintf("GetModuleDatasForModuleKeys returned %d found and %d not found for one key", len(found), len(notFound)), nil)
 		return c09Outcome{"error", "shape"}
 	}
-	md := found[0]
+	return c09VerifyData(c, found[0], s, key)
+}
+
+// c09VerifyData classifies one ModuleData handed out for the module s: usable content must hash to
+// the key's digest (independent construction) and equal the stored module's files.
+func c09VerifyData(c *core.C, md bufmodule.ModuleData, s c09Spec, key string) c09Outcome {
+	ctx := context.Background()
 	bucket, err := md.Bucket()
 	if err != nil {
 		var dm *bufmodule.DigestMismatchError
@@ -744,6 +752,163 @@ func c09LostRace(c *core.C, mi int) {
 	c.Nontrivial(fmt.Sprintf("lostrace module=%d files=%d hits=%d", mi, len(s.Files), total))
 }
 
+// ---- (f) the cache provider in front of the store ------------------------------------------------
+//
+// bufmodulecache.NewModuleDataProvider(delegate, store): values missing from the store are fetched
+// from the delegate, stored, and read back from the store. Under every injected store fault the call
+// must either fail or hand out, in key order, data for exactly the requested keys whose content
+// hashes to the key's digest; a delegate that serves wrong content must never be believed.
+type c09Delegate struct {
+	specs map[uuid.UUID]c09Spec
+	lie   uuid.UUID // commit whose content is served altered
+	calls int
+}
+
+func (d *c09Delegate) GetModuleDatasForModuleKeys(ctx context.Context, keys []bufmodule.ModuleKey) ([]bufmodule.ModuleData, error) {
+	var out []bufmodule.ModuleData
+	for _, k := range keys {
+		d.calls++
+		s, ok := d.specs[k.CommitID()]
+		if !ok {
+			return nil, &fs.PathError{Op: "read", Path: k.String(), Err: fs.ErrNotExist}
+		}
+		served := s
+		if k.CommitID() == d.lie {
+			served.Files = map[string]string{}
+			for p, v := range s.Files {
+				served.Files[p] = v + "// altered by the delegate\n"
+			}
+		}
+		// the key stays the requested one (pinned digest of the honest content)
+		out = append(out, bufmodule.NewModuleData(ctx, k,
+			func() (storage.ReadBucket, error) { return storagemem.NewReadBucket(served.filesBytes()) },
+			func() ([]bufmodule.ModuleKey, error) {
+				var ks []bufmodule.ModuleKey
+				for _, dd := range s.Deps {
+					ks = append(ks, c09Key(dd))
+				}
+				return ks, nil
+			},
+			func() (bufmodule.ObjectData, error) { return nil, nil },
+			func() (bufmodule.ObjectData, error) { return nil, nil },
+		))
+	}
+	return out, nil
+}
+
+func c09Provider(c *core.C, idx int) {
+	ctx := context.Background()
+	tar := idx%2 == 1
+	cache := filepath.Join(c.Tmp, "c09provider")
+	defer os.RemoveAll(cache)
+	n := 2 + c.Rand.IntN(3)
+	var specs []c09Spec
+	deleg := &c09Delegate{specs: map[uuid.UUID]c09Spec{}}
+	for i := 0; i < n; i++ {
+		s := c09Spec_(c.Seed, (idx*5+i)%24)
+		s.Name = fmt.Sprintf("buf.test/acme/p%d", i)
+		s.Commit = uuid.NewSHA1(uuid.NameSpaceOID, []byte(fmt.Sprintf("c09prov-%d-%d-%d", c.Seed, idx, i))).String()
+		s.BufYAML, s.BufLock = "", ""
+		specs = append(specs, s)
+		deleg.specs[uuid.MustParse(s.Commit)] = s
+	}
+	keysOf := func() []bufmodule.ModuleKey {
+		var ks []bufmodule.ModuleKey
+		for _, s := range specs {
+			ks = append(ks, c09Key(s))
+		}
+		return ks
+	}
+	call := func(plan *c15Plan, preCached int, label string) {
+		os.RemoveAll(cache)
+		if preCached > 0 {
+			if st, err := c09Open(cache, tar, nil); err == nil {
+				var mds []bufmodule.ModuleData
+				for _, s := range specs[:preCached] {
+					mds = append(mds, c09Data(ctx, s))
+				}
+				st.store.PutModuleDatas(ctx, mds)
+			}
+		}
+		st, err := c09Open(cache, tar, func(b storage.ReadWriteBucket) storage.ReadWriteBucket {
+			return &c15Bucket{ReadWriteBucket: b, plan: plan}
+		})
+		if err != nil {
+			return
+		}
+		provider := bufmodulecache.NewModuleDataProvider(c09Logger, deleg, st.store)
+		keys := keysOf()
+		mds, err := provider.GetModuleDatasForModuleKeys(ctx, keys)
+		c.Eval(1)
+		c.Count("provider_calls", 1)
+		key := fmt.Sprintf("provider case=%d tar=%v %s", idx, tar, label)
+		c.Distinct("provider_scenarios", fmt.Sprintf("tar=%v precached=%d %s", tar, preCached, strings.SplitN(label, "#", 2)[0]))
+		if err != nil {
+			c.Count("provider_errors", 1)
+			if deleg.lie != uuid.Nil {
+				// the altered content is rejected when it is stored (tamper proofing of the delegate's data)
+				c.Count("provider_lies_detected", 1)
+			}
+			return
+		}
+		if len(mds) != len(keys) {
+			c.Violation("provider-result-shape", key, fmt.Sprintf("%d values for %d keys", len(mds), len(keys)), nil)
+			return
+		}
+		for i, md := range mds {
+			if md.ModuleKey().CommitID() != keys[i].CommitID() || md.ModuleKey().FullName().String() != keys[i].FullName().String() {
+				c.Violation("provider-wrong-order", key, fmt.Sprintf("value %d is for %s, requested %s", i, md.ModuleKey().String(), keys[i].String()), nil)
+				continue
+			}
+			o := c09VerifyData(c, md, specs[i], fmt.Sprintf("%s value=%d", key, i))
+			lied := uuid.MustParse(specs[i].Commit) == deleg.lie && i >= preCached
+			if lied && o.Kind != "mismatch" {
+				c.Violation("lying-delegate-believed", key, fmt.Sprintf("the delegate served altered content for value %d and the provider's data reads as %s", i, o.Kind), nil)
+			}
+			if lied {
+				c.Count("provider_lies_detected", 1)
+			}
+			if !lied && o.Kind != "found" {
+				c.Violation("provider-unusable-value", key, fmt.Sprintf("provider returned success but value %d reads as %s (%s)", i, o.Kind, o.Detail), nil)
+			}
+			c.Count("provider_values_checked", 1)
+		}
+	}
+	dry := &c15Plan{}
+	deleg.lie = uuid.Nil
+	call(dry, 0, "fault=none")
+	for pre := 0; pre <= n; pre += max(1, n-1) {
+		call(&c15Plan{}, pre, fmt.Sprintf("fault=none precached=%d", pre))
+	}
+	// one module's content altered by the delegate
+	deleg.lie = uuid.MustParse(specs[c.Rand.IntN(n)].Commit)
+	call(&c15Plan{}, 0, "lying-delegate")
+	call(&c15Plan{}, 1, "lying-delegate precached=1")
+	deleg.lie = uuid.Nil
+	// every single store fault position
+	step := 1
+	if !c.Thorough() && dry.puts > 10 {
+		step = 2
+	}
+	for k := 1; k <= dry.puts; k += step {
+		call(&c15Plan{failPut: k}, 0, fmt.Sprintf("put#%d", k))
+	}
+	for k := 1; k <= dry.writes; k += step {
+		call(&c15Plan{failWrite: k}, 0, fmt.Sprintf("write#%d", k))
+	}
+	for k := 1; k <= dry.closes; k += step {
+		call(&c15Plan{failClose: k}, 0, fmt.Sprintf("close#%d", k))
+	}
+	c.Nontrivial(fmt.Sprintf("provider modules=%d tar=%v puts=%d", n, tar, dry.puts))
+}
+
+func c09ProviderCases(tier string) int {
+	if tier == "thorough" {
+		return 24
+	}
+	return 6
+}
+
 func c09NumModules(tier string) int {
 	if tier == "thorough" {
 		return 24
@@ -759,11 +924,15 @@ func c09LostRaceCases(tier string) int {
 }
 
 func c09Cases(tier string) int {
-	return c09NumModules(tier)*2*3 + c09HistCases(tier) + c09LostRaceCases(tier)
+	return c09NumModules(tier)*2*3 + c09HistCases(tier) + c09LostRaceCases(tier) + c09ProviderCases(tier)
 }
 
 func c09Run(c *core.C, idx int) {
 	n := c09NumModules(c.Tier) * 2 * 3
+	if idx >= n+c09HistCases(c.Tier)+c09LostRaceCases(c.Tier) {
+		c09Provider(c, idx-n-c09HistCases(c.Tier)-c09LostRaceCases(c.Tier))
+		return
+	}
 	if idx >= n+c09HistCases(c.Tier) {
 		c09LostRace(c, idx-n-c09HistCases(c.Tier)+2)
 		return
@@ -792,7 +961,7 @@ func init() {
 			"(a) SIGKILL of a storing child process at every hook hit n=1..N (N from a dry run; thorough: pairs), fresh-process read, then fault-free store + read; " +
 			"(b) every k-th Put/Write/short-write/Close failure through a wrapper bucket and every k-th os.write/os.close hook failure (thorough: pairs), read, repair, read; " +
 			"(c) every single-file tampering (flip first/middle/last byte, truncate, append, delete, rename, add module / non-module file) of every file of a complete entry, read; " +
-			"(d) concurrent put/get histories by 2–6 clients (processes in the plain build incl. killed clients, goroutines in the -race build) with widened lock windows, checked with porcupine and a content invariant. " +
+			"(f) the cache provider (delegate → store → re-read) under every store fault position and with a delegate that serves altered content; (d) concurrent put/get histories by 2–6 clients (processes in the plain build incl. killed clients, goroutines in the -race build) with widened lock windows, checked with porcupine and a content invariant. " +
 			"distinct/non-trivial = distinct (part, module shape, layout) classes; crash_points / fault_positions / tampers count the enumerated points",
 		Assumptions: []string{
 			"crash = SIGKILL at hook-point granularity (between and inside storage operations); power loss is not modelled",
@@ -805,7 +974,7 @@ func init() {
 		Run:         c09Run,
 		RaceCases:   func(tier string) int { return c09HistCases(tier) },
 		RunRace:     func(c *core.C, idx int) { c09Hist(c, idx, true) },
-		Required:    []string{"crash_runs", "kills_delivered", "faults_fired", "tamper_runs", "tamper_mismatch_required", "repairs_checked", "reads_found_correct", "reads_notfound", "reads_mismatch", "hist_histories", "lostrace_runs"},
+		Required:    []string{"crash_runs", "kills_delivered", "faults_fired", "tamper_runs", "tamper_mismatch_required", "repairs_checked", "reads_found_correct", "reads_notfound", "reads_mismatch", "hist_histories", "lostrace_runs", "provider_values_checked", "provider_errors", "provider_lies_detected"},
 		WatchdogSec: map[string]int{"quick": 1500, "thorough": 3 * 3600},
 	})
 }
